@@ -289,7 +289,7 @@ def dump_node(U: Universe, node: Any, with_id: bool = True) -> Any:
         node.id if with_id else None,
         node.content_id,
         tuple(sorted(props.items())),
-        O.canon_real(node.origin),
+        O.canon_real_full(node.origin),
         tuple(kids),
     )
 
